@@ -189,6 +189,10 @@ ElemElement::startElement(StylesheetExecutionContext&       executionContext) co
                 if (m_namespaceAVT != 0)
                 {
                     elemName.erase(0, indexOfNSSep + 1);
+
+                    // The name no longer has a prefix, so no declaration
+                    // must be generated for it.
+                    havePrefix = false;
                 }
                 else
                 {
